@@ -83,7 +83,10 @@ SkipCount(nw) == IF Legacy THEN (IF nw.h = 0 THEN 1 ELSE nw.h) ELSE nw.h       \
 ReadNet(nw) == LET rows == NetRows(nw) IN [j \in 1..(Len(rows) - SkipCount(nw)) |-> rows[j + SkipCount(nw)]]
 NetRoundTripOK(nw) == ReadNet(nw) = [j \in DOMAIN nw.edges |-> <<"edge", j>>]
 EdgeSet == [s : {"a", "b", "c"}, t : {"a", "b", "c"}, o : {-1, 0, 1}, g : {2, 3}]
-Nets == {[edges |-> es, h |-> h, sep |-> sp] : es \in UNION {[1..m -> EdgeSet] : m \in 1..2}, h \in {0, 1}, sp \in Seps}
+\* the network format documents three separators: comma, blank and semicolon (a blank cannot separate track fields - the
+\* printed timestamps contain one); the tab works too
+NetSeps == Seps \cup {"b"}
+Nets == {[edges |-> es, h |-> h, sep |-> sp] : es \in UNION {[1..m -> EdgeSet] : m \in 1..2}, h \in {0, 1}, sp \in NetSeps}
 
 (* ---- histories over the global formats ---------------------------------------------------- *)
 \* files: "A", "B" (csv written with cfgA / cfgB) and "G" (gpx); kind "none" = not written yet
